@@ -79,12 +79,23 @@ Theorem C06_sgr_sequence : forall params : list N,
 Proof. exact sgr_face_sem. Qed.
 
 (* 8. semantics, unbounded histories, every chunking: the cells carry the faces of the
-   reference SGR state machine *)
-Theorem C06_semantics : forall (f0 : face) (hist : list hitem) (chunks : list (list N)),
+   reference SGR state machine.  Domain (`_wf`): item_ok = every parameter completely defined by
+   the standards (sgr_wf: no `38;5;256`, `4:6`, `4:`, `1:2`, truncated colour ...; numbers of at
+   most 19 digits) and none of 7/27/39/49 (known finding; see 8b) *)
+Theorem C06_semantics_wf : forall (f0 : face) (hist : list hitem) (chunks : list (list N)),
   face_ok f0 -> Forall item_ok hist -> concat chunks = render hist ->
   exists cells, tty_write_chunks f0 chunks = Some cells
                 /\ map abs_cell cells = ref_cells (abs_face f0) hist.
 Proof. exact writer_semantics. Qed.
+
+(* 8b. every history of well-formed sequences, INCLUDING the inexpressible parameters 7/27/39/49:
+   the cells carry the faces of the recorded machine (reference machine with those four parameters
+   as no-ops).  Together with 8 this pins the known finding exactly: nothing else may differ. *)
+Theorem C06_semantics_recorded : forall (f0 : face) (hist : list hitem) (chunks : list (list N)),
+  face_ok f0 -> Forall item_wfp hist -> concat chunks = render hist ->
+  exists cells, tty_write_chunks f0 chunks = Some cells
+                /\ map abs_cell cells = ref_cells_lib (abs_face f0) hist.
+Proof. exact writer_semantics_lib. Qed.
 
 (* 9. the reference palette is the library's table (re-checked on the regenerated tables) *)
 Theorem C06_palette : (forall i, color256 i = palette256 i)
@@ -92,7 +103,7 @@ Theorem C06_palette : (forall i, color256 i = palette256 i)
 Proof. exact palette_tables. Qed.
 
 (* 10. known finding (C06-inexpressible): outside the hypothesis `item_expressible` of
-   C06_semantics the statement is false -- SGR 39 does not restore the default foreground *)
+   C06_semantics_wf the statement is false -- SGR 39 does not restore the default foreground *)
 Theorem C06_inexpressible_refuted :
   exists hist, hist_wf hist = true /\ hist_expressible hist = false
     /\ option_map (map abs_cell) (tty_write_chunks face_default [render hist])
@@ -109,7 +120,7 @@ Check C06_roundtrip_face : forall (f : face) (chunks : list (list N)),
 Check C06_text : forall (c : N) (chunks : list (list N)),
   scalar_ok c = true -> c <> 27 -> concat chunks = encode (CmdChar c) ->
   decode_chunks st_init chunks = Some ([CmdChar c], st_init).
-Check C06_semantics : forall (f0 : face) (hist : list hitem) (chunks : list (list N)),
+Check C06_semantics_wf : forall (f0 : face) (hist : list hitem) (chunks : list (list N)),
   face_ok f0 -> Forall item_ok hist -> concat chunks = render hist ->
   exists cells, tty_write_chunks f0 chunks = Some cells
                 /\ map abs_cell cells = ref_cells (abs_face f0) hist.
